@@ -285,3 +285,29 @@ func FlipNormal(rc model3d.RayCollision) model3d.RayCollision {
 	rc.Normal = rc.Normal.Scale(-1)
 	return rc
 }
+
+const defaultGain = 2.0
+
+func amplify(x, gain float64) float64 { return x * gain }
+
+// want:CALLAGREE the search ignores the caller's gain.
+func SearchThenBuildBad(x, gain float64) float64 {
+	best := 0.0
+	for i := 0; i < 4; i++ {
+		if v := amplify(x+float64(i), defaultGain); v > best {
+			best = v
+		}
+	}
+	return amplify(best, gain)
+}
+
+// clean:CALLAGREE
+func SearchThenBuildGood(x, gain float64) float64 {
+	best := 0.0
+	for i := 0; i < 4; i++ {
+		if v := amplify(x+float64(i), gain); v > best {
+			best = v
+		}
+	}
+	return amplify(best, gain)
+}
